@@ -321,8 +321,12 @@ def show(t, depth=0):
     k = t[0]
     if depth > 8:
         return "..."
-    if k == "param":
-        return "param#%d" % t[1]
+    if k in ("param", "clone_of_param", "closure_param"):
+        if len(t) == 3:
+            return "%s#%s of %s" % (k, t[2], t[1])
+        return "param#%s" % (t[1],)
+    if k in ("try_ok", "try_err", "try_break", "try_err?"):
+        return "%s(%s)" % (k, show(t[1], depth + 1))
     if k == "upvar":
         return "upvar:%s" % (t[2] or t[1])
     if k in ("const", "int"):
